@@ -315,8 +315,19 @@ def sweep_runs(pair_index: int, pair: dict, vseed: int, max_points: int) -> list
         if repeat and first_tid == 1:
             break
         # sweep batches run warm after their first run, so the warm count is the one that places the pre-emptions
-        one = runner.steps(x, gran, warm=not pair.get("cold") == "all")
-        lo, steps = (one + 1, 2 * one) if repeat else (1, one)
+        if repeat:
+            # thread 0 makes the call twice: sweep the *second* execution, whose length may differ from the first
+            # (a memo hit) - measured on the sequence itself
+            # (cold count: in a batch the previous run's post-episode probe leaves the other op as the last one
+            # executed, so the first execution here takes the same path as in a fresh process; only a lazily
+            # initialising tree, whose cold count is dominated by the initialisation, is measured warm)
+            marks = runner.steps_seq([x, x], gran, warm=False)
+            if marks[0] >= runner.STEP_COUNT_CAP:
+                marks = runner.steps_seq([x, x], gran, warm=True)
+            lo, steps = marks[0] + 1, marks[1]
+        else:
+            one = runner.steps(x, gran, warm=not pair.get("cold") == "all")
+            lo, steps = 1, one
         stride = max(1, -(-(steps - lo + 1) // max_points))
         offset = (pair_index + first_tid) % stride
         for k in range(lo + offset, steps + 1, stride):
@@ -818,7 +829,7 @@ def main() -> int:
     vcount = 0
     samples: list = []
     digests: list = []
-    limit = 7000 if args.tier == "thorough" else 1500
+    limit = max(7000 if args.tier == "thorough" else 1500, (deadline - __import__("time").time()) + 900)
     try:
         for task, st in wp.map_unordered(worker_task, tasks, timeout=limit):
             for k in agg:
